@@ -602,12 +602,107 @@ def _inline_at(stmt, call, fn, tag, is_method, static, caller=None):
     return out
 
 
+def _desugar_context_managers(trees, known):
+    """`with R.cm(args) as v: BODY` where cm is a NEW generator-based context manager of the repository (contextlib.contextmanager) whose body is
+    straight-line `pre...; yield X; post...` (no try: on an exception in BODY the post part does not run, exactly like straight-line code) is
+    rewritten to `pre...; v = X; BODY; post...` with self bound to R and the parameters bound to the arguments.  -> [(rel, qualname)]"""
+    import builtins as _b
+    cms = {}
+    for rel, tree in trees.items():
+        for qual, fn in _functions(tree):
+            if qual in known.get(rel, set()) or "<locals>" in qual:
+                continue
+            if not any(ast.unparse(d).split(".")[-1] == "contextmanager" for d in fn.decorator_list):
+                continue
+            ys = [i for i, st in enumerate(fn.body) if isinstance(st, ast.Expr) and isinstance(st.value, ast.Yield)]
+            body = [st for st in fn.body if not (isinstance(st, ast.Expr) and isinstance(st.value, ast.Constant))]
+            ys = [i for i, st in enumerate(body) if isinstance(st, ast.Expr) and isinstance(st.value, ast.Yield)]
+            n_y = sum(isinstance(x, (ast.Yield, ast.YieldFrom)) for x in ast.walk(fn))
+            if len(ys) != 1 or n_y != 1 or any(isinstance(x, (ast.Return, ast.Try, ast.FunctionDef, ast.Lambda)) for st in body for x in ast.walk(st)):
+                continue
+            if fn.args.vararg or fn.args.kwarg or fn.args.kwonlyargs or fn.args.defaults:
+                continue
+            bound = {a.arg for a in fn.args.args} | {n.id for n in ast.walk(fn) if isinstance(n, ast.Name) and isinstance(n.ctx, ast.Store)}
+            free = {n.id for st in fn.body for n in ast.walk(st) if isinstance(n, ast.Name) and isinstance(n.ctx, ast.Load)} - bound - set(dir(_b))
+            cms.setdefault(fn.name, []).append((rel, qual, fn, body, ys[0], free, bound))
+    done = []
+    count = [0]
+    for name, lst in cms.items():
+        if len(lst) != 1:
+            continue
+        rel, qual, fn, body, yi, free, bound = lst[0]
+        is_method = "." in qual
+        params = [a.arg for a in fn.args.args]
+        for srel, tree in trees.items():
+            if free and srel != rel:
+                continue
+            for owner in ast.walk(tree):
+                for field in ("body", "orelse", "finalbody"):
+                    block = getattr(owner, field, None)
+                    if not isinstance(block, list):
+                        continue
+                    i = 0
+                    while i < len(block):
+                        st = block[i]
+                        i += 1
+                        if not (isinstance(st, ast.With) and len(st.items) == 1 and isinstance(st.items[0].context_expr, ast.Call)):
+                            continue
+                        call = st.items[0].context_expr
+                        nm = call.func.attr if isinstance(call.func, ast.Attribute) else call.func.id if isinstance(call.func, ast.Name) else None
+                        if nm != name or call.keywords or any(isinstance(a, ast.Starred) for a in call.args) or any(x is st for x in ast.walk(fn)):
+                            continue
+                        if is_method != isinstance(call.func, ast.Attribute) or len(call.args) != len(params) - (1 if is_method else 0):
+                            continue
+                        count[0] += 1
+                        tag = f"_cm{count[0]}_"
+                        sub = {}
+                        new = []
+                        if is_method:
+                            sub[params[0]] = call.func.value
+                        yv0 = body[yi].value.value
+                        asvar = st.items[0].optional_vars
+                        direct = None  # the parameter that is handed back by `yield`: it can carry the name of the `as` variable itself
+                        if isinstance(asvar, ast.Name) and isinstance(yv0, ast.Name) and yv0.id in params and not any(
+                                isinstance(x, ast.Name) and x.id == asvar.id and isinstance(x.ctx, (ast.Store, ast.Del)) for b_ in st.body for x in ast.walk(b_)):
+                            direct = yv0.id
+                        for p_, a_ in zip(params[1 if is_method else 0:], call.args):
+                            tname = asvar.id if p_ == direct else tag + p_
+                            new.append(ast.Assign(targets=[ast.Name(id=tname, ctx=ast.Store())], value=a_))
+                            sub[p_] = ast.Name(id=tname, ctx=ast.Load())
+
+                        class Sub(ast.NodeTransformer):
+                            def visit_Name(self, node):
+                                if node.id in sub and isinstance(node.ctx, ast.Load):
+                                    return copy.deepcopy(sub[node.id])
+                                if node.id not in sub and node.id in bound and not isinstance(node.ctx, ast.Load):
+                                    return ast.Name(id=tag + node.id, ctx=node.ctx)
+                                if node.id in bound and node.id not in sub and node.id not in params:
+                                    return ast.Name(id=tag + node.id, ctx=node.ctx)
+                                return node
+
+                        pre = [Sub().visit(copy.deepcopy(x)) for x in body[:yi]]
+                        post = [Sub().visit(copy.deepcopy(x)) for x in body[yi + 1:]]
+                        yv = body[yi].value.value
+                        mid = []
+                        if st.items[0].optional_vars is not None and direct is None:
+                            mid.append(ast.Assign(targets=[st.items[0].optional_vars], value=Sub().visit(copy.deepcopy(yv)) if yv is not None else ast.Constant(value=None)))
+                        repl = new + pre + mid + list(st.body) + post
+                        for x in repl:
+                            ast.copy_location(x, st)
+                            ast.fix_missing_locations(x)
+                        block[i - 1:i] = repl
+                        i += len(repl) - 1
+                        done.append((srel, qual))
+    return done
+
+
 def unextract(trees):
     """trees: {rel: module tree}.  Inlines new single-use helpers; returns [(caller module, helper name)]."""
     ref = reference()
     known = {rel: set(m.get("__all_functions__", [])) for rel, m in ref.items()}
     if not any(known.values()):
         return []
+    cm_done = _desugar_context_managers(trees, known)
     # definitions that are new, and call counts by simple name over the whole package
     defs = {}
     for rel, tree in trees.items():
@@ -698,7 +793,12 @@ def unextract(trees):
                     body[:] = [x for x in body if x is not fn] or [ast.Pass()]
     for f_ in touched:
         _renumber(f_)
-    return done
+    if cm_done:
+        for tree in trees.values():
+            for _, f_ in _functions(tree):
+                if any(isinstance(n, ast.Name) and n.id.startswith("_cm") for n in ast.walk(f_)):
+                    _renumber(f_)
+    return done + cm_done
 
 
 _BLOCKS = ("body", "handlers", "orelse", "finalbody")
